@@ -105,9 +105,9 @@ F.update({
     "DF114": ("SNT", 24, P2(-20)), "DF115": ("SNT", 27, P2(-11)), "DF116": ("SNT", 5, P2(-30)),
     "DF117": ("SNT", 24, P2(-20)), "DF118": ("SNT", 27, P2(-11)), "DF119": ("SNT", 5, P2(-30)),
     "DF120": ("BIT", 1, 0), "DF121": ("SNT", 11, None), "DF122": ("BIT", 2, 0), "DF123": ("BIT", 1, 0),
-    "DF124": ("SNT", 22, P2(-30)), "DF125": ("SNT", 5, P2(-30)), "DF126": ("UINT", 5, 1), "DF127": ("BIT", 1, 0),
+    "DF124": ("SNT", 22, None), "DF125": ("SNT", 5, None), "DF126": ("UINT", 5, 1), "DF127": ("BIT", 1, 0),
     "DF128": ("UINT", 4, None), "DF129": ("UINT", 11, 1), "DF130": ("BIT", 2, 0), "DF131": ("BIT", 1, 0),
-    "DF132": ("UINT", 11, 1), "DF133": ("SNT", 32, P2(-31)), "DF134": ("UINT", 5, 1), "DF135": ("SNT", 22, P2(-30)),
+    "DF132": ("UINT", 11, 1), "DF133": ("SNT", 32, None), "DF134": ("UINT", 5, 1), "DF135": ("SNT", 22, None),
     "DF136": ("BIT", 1, 0),
     # 1014 network auxiliary station data, 1032 physical reference station position
     "DF058": ("UINT", 5, 1), "DF062": ("INT", 20, None), "DF063": ("INT", 21, None), "DF064": ("INT", 23, None),
